@@ -66,6 +66,8 @@ pub enum TensorData {
     Floats(Vec<f32>),
     Int32s(Vec<i32>),
     Int64s(Vec<i64>),
+    /// `double_data` (field 10, packed little-endian f64). Added for C20.
+    Doubles(Vec<f64>),
     /// External data: (location, offset, length).
     External(String, Option<u64>, Option<u64>),
 }
@@ -148,6 +150,13 @@ impl Tensor {
                     varint(&mut p, *x as u64);
                 }
                 f_bytes(&mut o, 7, &p);
+            }
+            TensorData::Doubles(v) => {
+                let mut p = Vec::new();
+                for x in v {
+                    p.extend_from_slice(&x.to_le_bytes());
+                }
+                f_bytes(&mut o, 10, &p);
             }
             TensorData::External(loc, off, len) => {
                 let mut kv = |k: &str, v: &str| {
